@@ -688,5 +688,27 @@ def request(proto: str, selector, search=None):
     raise ValueError(proto)
 
 
+def guard_forked(server, marker_path):
+    """A forking server's worker must end inside process_request().  If a change lets it come back out into the
+    accept loop, the worker would go on running a copy of the whole harness: catch it there, leave a marker for
+    the parent to report, and end the process."""
+    parent = os.getpid()
+    orig = server._handle_request_noblock
+
+    def guarded():
+        try:
+            orig()
+        finally:
+            if os.getpid() != parent:
+                try:
+                    with open(marker_path, "a") as f:
+                        f.write("x")
+                finally:
+                    os._exit(0)
+
+    server._handle_request_noblock = guarded
+    return parent
+
+
 # create the scratch root in the check process itself, before any worker is forked
 scratch_root()
